@@ -112,9 +112,11 @@ class ResumeDriver:
     """After the scripted prefix: once the suspended operators are pending again, assign
     them to a new container of the same size and let everything run to the end."""
 
-    def __init__(self, prefix):
+    def __init__(self, prefix, resize=False):
         self.prefix = prefix
         self.resumed = False
+        self.resize = resize        # resume with another CPU count (a scheduler may resize on resume)
+        self.resized = False
 
     def __call__(self, w, i):
         if i < len(self.prefix):
@@ -126,7 +128,10 @@ class ResumeDriver:
             keys = [k for k in mc.keys if w.mstate[k] == "pending"]
             if keys and w.free_cpu[0] >= mc.cpu and w.free_ram[0] >= mc.ram:
                 self.resumed = True
-                return {"sus": [], "asg": [{"pool": 0, "cpu": mc.cpu, "ram": mc.ram, "ops": [list(k) for k in keys]}]}
+                cpu = mc.cpu
+                if self.resize and w.free_cpu[0] >= mc.cpu + 1:
+                    cpu, self.resized = mc.cpu + 1, True
+                return {"sus": [], "asg": [{"pool": 0, "cpu": cpu, "ram": mc.ram, "ops": [list(k) for k in keys]}]}
         if not any(w.active[k] or w.suspending[k] for k in range(w.npools)):
             return None
         return {"sus": [], "asg": []}
@@ -141,7 +146,7 @@ def run_injection(base, i, target, mon, life):
              [{"sus": [{"pool": 0, "c": target}], "asg": []}]
     case["steps"] = None
     case["_adaptive_pending"] = True
-    drv = ResumeDriver(prefix)
+    drv = ResumeDriver(prefix, resize=(i % 2 == 1))
     with mon.subcase(case):
         w, mine = _exec.run_exec_case(case, mon, ID, driver=drv, max_steps=len(prefix) + 500)
         if w.ended and w.ended.startswith("rejected:suspend"):
@@ -154,6 +159,8 @@ def run_injection(base, i, target, mon, life):
                 mon.count("suspend_multi_tick")
             if drv.resumed and len(w.containers) > 1 and w.containers[-1].status == "ok":
                 mon.count("resumed_and_finished")
+                if drv.resized:
+                    mon.count("resumed_with_another_cpu_count_and_finished")
             mon.hit({"inject_at": i, "life": life, "verdict": "accepted", "writeout_ticks": mc.sus_total,
                      "resumed": drv.resumed, "trace_tail": w.trace[-3:]})
         else:
